@@ -60,6 +60,23 @@ def is_cse(exc):
     return isinstance(exc, ChunkStoreError)
 
 
+def family(name_or_cls):
+    """The property only speaks about families: missing chunk / store unavailable / bad chunk."""
+    if isinstance(name_or_cls, str):
+        if name_or_cls == 'none':
+            return 'none'
+        mod, _, cn = name_or_cls.rpartition('.')
+        cls = getattr({'katdal.chunkstore': chunkstore, 'katdal.chunkstore_s3': chunkstore_s3}.get(mod), cn, None)
+        if cls is None:
+            return name_or_cls
+    else:
+        cls = name_or_cls
+    for fam in (ChunkNotFound, StoreUnavailable, BadChunk):
+        if issubclass(cls, fam):
+            return fam.__name__
+    return qname(cls)
+
+
 # ------------------------------------------------------------------ A. reader
 
 class SchedStream:
@@ -339,7 +356,10 @@ PAYLOADS = ['garbage', 'wrongdtype', 'wrongshape', 'object', 'fortran', 'extra',
 
 
 def gen_payload_case(rng):
-    return dict(kind='payload', backend=rng.choice(['npy', 's3', 'dict']), payload=rng.choice(PAYLOADS),
+    be = rng.choice(['npy', 's3', 'dict'])
+    pl = rng.choice(PAYLOADS if be != 'dict' else ['wrongdtype', 'wrongshape', 'missing', 'reqobject', 'byteorder',
+                                                    'fortran'])
+    return dict(kind='payload', backend=be, payload=pl,
                 dtype=rng.choice(['u1', 'f4', 'c8', 'i2be', 'rec', 'bool', 'f8']),
                 shape=[rng.randint(1, 3), rng.randint(2, 4)], arrseed=rng.getrandbits(32),
                 errors=rng.choice([0, 'raise', 'placeholder']))
@@ -625,8 +645,8 @@ def run_store_case(ctx, case, env):
                 return f'HTTP {code} raised {got}, not a chunk-store error'
             if code in (401, 403) and not isinstance(res[1], StoreUnavailable):
                 return f'HTTP {code} raised {got}, StoreUnavailable is due'
-            if want != 'none' and code not in (500, 502, 503, 504) and got != want:
-                return f'HTTP {code} raised {got}, documented mapping gives {want}'
+            if want != 'none' and code not in (500, 502, 503, 504) and family(type(res[1])) != family(want):
+                return f'HTTP {code} raised {got}, documented mapping gives the {family(want)} family'
             return None
     finally:
         env.s3.forbidden = False
@@ -741,7 +761,7 @@ def run_table_cases(ctx, env):
         res = classify_call(lambda: chunkstore_s3._raise_for_status(Resp(c), 'chunk', ign))
         got = 'none' if res[0] == 'ok' else qname(type(res[1]))
         ctx.count(('status', c, ign), c >= 400, sample=None)
-        if got != want:
+        if family(got if res[0] == 'ok' else type(res[1])) != family(want):
             bad.append((dict(kind='table', op='status', code=c), f'_raise_for_status({c}) gives {got}, model {want}'))
         if c in (401, 403) and not (res[0] == 'exc' and isinstance(res[1], StoreUnavailable)):
             bad.append((dict(kind='table', op='status', code=c), f'HTTP {c} gives {got}, StoreUnavailable is due'))
